@@ -22,7 +22,8 @@ struct State {
 
 pub struct Sched {
     st: Mutex<State>,
-    cv: Condvar,
+    /// one condition variable per participant: a hand-over wakes exactly the thread that runs next
+    cvs: Vec<Condvar>,
     n: usize,
     /// free-running mode: no thread is ever parked, the product's scheduling points are not hooked;
     /// the participants are released together and race for real
@@ -35,7 +36,7 @@ impl Sched {
     pub fn new(n: usize, schedule: Vec<u8>) -> Arc<Sched> {
         Arc::new(Sched {
             st: Mutex::new(State { current: 0, live: vec![true; n], schedule, pos: 0, steps: 0, rr: 0, trace: vec![], preemptions: 0 }),
-            cv: Condvar::new(),
+            cvs: (0..n).map(|_| Condvar::new()).collect(),
             n,
             free: false,
         })
@@ -44,7 +45,7 @@ impl Sched {
     pub fn new_free(n: usize) -> Arc<Sched> {
         Arc::new(Sched {
             st: Mutex::new(State { current: usize::MAX, live: vec![true; n], schedule: vec![], pos: 0, steps: 0, rr: 0, trace: vec![], preemptions: 0 }),
-            cv: Condvar::new(),
+            cvs: (0..n).map(|_| Condvar::new()).collect(),
             n,
             free: true,
         })
@@ -88,7 +89,9 @@ impl Sched {
         if st.steps > MAX_STEPS {
             // runaway: let everything run freely to the end (reported as inconclusive by the caller)
             st.current = usize::MAX;
-            self.cv.notify_all();
+            for cv in &self.cvs {
+                cv.notify_all();
+            }
             return;
         }
         if st.current == usize::MAX {
@@ -96,9 +99,11 @@ impl Sched {
         }
         let next = Self::choose(&mut st, me);
         st.current = next;
-        self.cv.notify_all();
+        if next != me {
+            self.cvs[next].notify_one();
+        }
         while st.current != me && st.current != usize::MAX {
-            self.cv.wait(&mut st);
+            self.cvs[me].wait(&mut st);
         }
     }
 
@@ -106,7 +111,7 @@ impl Sched {
     pub fn start(&self, me: usize) {
         let mut st = self.st.lock();
         while st.current != me && st.current != usize::MAX {
-            self.cv.wait(&mut st);
+            self.cvs[me].wait(&mut st);
         }
     }
 
@@ -118,7 +123,9 @@ impl Sched {
         }
         let next = Self::choose(&mut st, me);
         st.current = next;
-        self.cv.notify_all();
+        if next < self.cvs.len() {
+            self.cvs[next].notify_one();
+        }
     }
 
     pub fn runaway(&self) -> bool {
